@@ -105,7 +105,7 @@ def gen_world(rnd):
             i = rnd.choice([k for k in range(n) if k != j])
             links.append([i, len(tasks) - 1])
             links.append([i, j])
-    return {'tasks': tasks, 'wbs': 1, 'parents': parents, 'detached': detached, 'links': links}
+    return {'tasks': tasks, 'wbs': 1, 'parents': parents, 'detached': detached, 'links': links, 'parents_n': list(range(n))}
 
 
 def build(world):
@@ -319,6 +319,10 @@ def gen_case(rnd):
         else:
             step['callable_ids'] = sorted(rnd.sample(range(1, 10), rnd.randint(1, 6)))
             step['kw'] = gen_filters(rnd)
+        if step['list'] in ('predecessors', 'successors') and len(world['tasks']) > len(world['parents_n']) and rnd.random() < 0.4:
+            # the one filter everybody writes: id=...; on a dependency list two different tasks may carry that id
+            step.pop('callable_ids', None)
+            step['kw'] = {'id': world['tasks'][-1]['id']}
         if r < 0.15:
             step['op'] = 'bulk'
             step['attr'] = rnd.choice(['tag', 'prio', 'name', 'resource', 'flag', 'iteration'])
